@@ -339,13 +339,18 @@ Proof.
   - cbn. rewrite dm_store_reg. exact Hc4.
 Qed.
 
+Lemma dm_pubns_fold_sync fm l : forall s, dm_synced fm s ->
+  dm_synced fm (fold_left (fun s (p : Z * list Z) => fst (dm_pubns (fst p) (snd p) s)) l s).
+Proof. induction l as [|p l IH]; intros s H; cbn; [exact H | now apply IH, dm_pubns_sync]. Qed.
+
 Lemma dm_step_sync fl o s : dm_synced (f_fs fl) s -> dm_synced (f_fs fl) (fst (dm_step fl o s)).
 Proof.
-  intros H. destruct o; cbn.
+  intros H. destruct o; cbn [dm_step fst].
   - now apply dm_create_sync.
   - now apply dm_delete_sync.
   - now apply dm_rename_sync.
   - now apply dm_pubns_sync.
+  - destruct (forallb _ l); [now apply dm_pubns_fold_sync | exact H].
   - now apply dm_post_sync.
 Qed.
 
@@ -507,12 +512,39 @@ Proof.
   - cbn. now apply reopen_sync.
 Qed.
 
+(** event-triggered runs *)
+Lemma drain_nil fl fuel h : drain fl fuel [] h = h.
+Proof. destruct fuel; reflexivity. Qed.
+
+Lemma drain_pres (P : hub -> Prop) fl :
+  (forall j h, P h -> P (fst (job_run fl j h))) -> forall fuel batch h, P h -> P (drain fl fuel batch h).
+Proof.
+  intros Hj. induction fuel as [|fuel IH]; intros batch h H; [exact H|].
+  destruct batch as [|b batch]; [exact H|]. cbn [drain]. apply IH.
+  generalize (sortz (b :: batch)). intros l.
+  assert (G : forall (a : hub * list Z), P (fst a) ->
+              P (fst (fold_left (fun (a : hub * list Z) j => (fst (job_run fl j (fst a)), snd a ++ job_emits fl j (fst a))) l a))).
+  { induction l as [|j l IHl]; intros a Ha; cbn [fold_left]; [exact Ha|]. apply IHl. cbn [fst]. now apply Hj. }
+  now apply G.
+Qed.
+
+Lemma stepd_fst fl h o : stepd fl h o = (drain fl drain_rounds (op_emits fl h o (fst (step fl h o)) (snd (step fl h o))) (fst (step fl h o)), snd (step fl h o)).
+Proof. reflexivity. Qed.
+
+Lemma stepd_restart fl h c : stepd fl h (HRestart c) = (reopen fl c h, ROk).
+Proof. rewrite stepd_fst. cbn [step fst snd op_emits]. now rewrite drain_nil. Qed.
+
+Lemma stepd_sync fl o h : sound fl -> hub_synced fl h -> hub_synced fl (fst (stepd fl h o)).
+Proof.
+  intros Hsd H. rewrite stepd_fst. cbn [fst]. apply drain_pres; [intros; now apply job_run_sync|]. now apply step_sync.
+Qed.
+
 Lemma run_sync fl ops : sound fl -> forall h, hub_synced fl h -> hub_synced fl (fst (run fl ops h)).
 Proof.
-  intros Hsd. induction ops as [|o ops IH]; intros h H; cbn; [exact H|].
-  destruct (step fl h o) as [h1 r] eqn:E. specialize (IH h1).
-  destruct (run fl ops h1) as [h2 rs]. cbn in *. apply IH.
-  replace h1 with (fst (step fl h o)) by (now rewrite E). now apply step_sync.
+  intros Hsd. induction ops as [|o ops IH]; intros h H; cbn [run]; [exact H|].
+  destruct (stepd fl h o) as [h1 r] eqn:E. specialize (IH h1).
+  destruct (run fl ops h1) as [h2 rs]. cbn [fst] in *. apply IH.
+  replace h1 with (fst (stepd fl h o)) by (now rewrite E). now apply stepd_sync.
 Qed.
 
 (** a clean reopen of a synced hub is the hub itself up to the lease bounds *)
@@ -605,10 +637,20 @@ Proof.
   destruct H as (q' & -> & Hq). exists q'. now split.
 Qed.
 
+Lemma dm_pubns_sim n pub s s' : dsim s s' ->
+  snd (dm_pubns n pub s) = snd (dm_pubns n pub s') /\ dsim (fst (dm_pubns n pub s)) (fst (dm_pubns n pub s')).
+Proof.
+  intros (q' & -> & Hq). unfold dm_pubns. cbn. destruct (assoc n (m_reg s)); (split; [reflexivity | now exists q']).
+Qed.
+Lemma dm_pubns_fold_sim l : forall s s', dsim s s' ->
+  dsim (fold_left (fun s (p : Z * list Z) => fst (dm_pubns (fst p) (snd p) s)) l s)
+       (fold_left (fun s (p : Z * list Z) => fst (dm_pubns (fst p) (snd p) s)) l s').
+Proof. induction l as [|p l IH]; intros s s' H; cbn; [exact H | apply IH, dm_pubns_sim, H]. Qed.
+
 Lemma dm_step_sim fl o s s' : dsim s s' ->
   snd (dm_step fl o s) = snd (dm_step fl o s') /\ dsim (fst (dm_step fl o s)) (fst (dm_step fl o s')).
 Proof.
-  intros H. destruct o as [n pub|n|n m|n pub|n start fsid fin es]; cbn [dm_step].
+  intros H. destruct o as [n pub|n|n m|n pub|l|n start fsid fin es]; cbn [dm_step].
   - split; [reflexivity | now apply dm_create_sim].
   - destruct H as (q' & -> & Hq). unfold dm_delete. cbn. destruct (Z.eqb n core_name); [split; [reflexivity | now exists q']|].
     destruct (assoc n (m_reg s)); (split; [reflexivity | now exists q']).
@@ -616,7 +658,9 @@ Proof.
     destruct (Z.eqb n core_name); [now split|]. destruct (assoc n (m_reg s)); [|now split].
     destruct (Z.eqb n m); [now split|]. destruct (assoc m (m_reg s)); [now split|]. cbn.
     split; [reflexivity|]. apply assert_uri_sim. destruct H as (q' & -> & Hq). now exists q'.
-  - destruct H as (q' & -> & Hq). unfold dm_pubns. cbn. destruct (assoc n (m_reg s)); (split; [reflexivity | now exists q']).
+  - now apply dm_pubns_sim.
+  - assert (Hr : m_reg s' = m_reg s) by (destruct H as (q' & -> & _); reflexivity). rewrite Hr.
+    destruct (forallb _ l); [split; [reflexivity | now apply dm_pubns_fold_sim] | now split].
   - unfold dm_post. assert (Hr : m_reg s' = m_reg s) by (destruct H as (q' & -> & _); reflexivity). rewrite Hr.
     destruct (assoc n (m_reg s)) as [r|]; [|now split].
     destruct (negb (Z.eqb (r_kind r) 0)); [now split|].
@@ -697,23 +741,62 @@ Proof.
     + now rewrite Hp.
 Qed.
 
+Lemma job_emits_sim fl j h h' : hsim h h' -> job_emits fl j h = job_emits fl j h'.
+Proof.
+  intros (Hd & Hj & _). unfold job_emits. cbv zeta. rewrite <- Hj.
+  assert (Hr : m_reg (h_dm h') = m_reg (h_dm h)) by (destruct Hd as (q' & -> & _); reflexivity).
+  assert (Hdt : d_data (h_dm h') = d_data (h_dm h)) by (destruct Hd as (q' & -> & _); reflexivity).
+  assert (Hf : m_fs (h_dm h') = m_fs (h_dm h)) by (destruct Hd as (q' & -> & _); reflexivity).
+  assert (Hu : forall n, usable (h_dm h') n = usable (h_dm h) n) by (intros n; unfold usable; now rewrite Hr).
+  destruct (assoc j (d_jcfg (h_job h))) as [c|]; [|reflexivity].
+  rewrite Hu, Hdt. destruct (usable (h_dm h) (j_src c)) as [rs|]; [|reflexivity].
+  destruct (fst (changes _ _ _ _)); [reflexivity|]. now rewrite Hu, Hf.
+Qed.
+
+Lemma drain_sim fl : forall fuel batch h h', hsim h h' -> hsim (drain fl fuel batch h) (drain fl fuel batch h').
+Proof.
+  induction fuel as [|fuel IH]; intros batch h h' H; [exact H|].
+  destruct batch as [|b batch]; [exact H|]. cbn [drain].
+  generalize (sortz (b :: batch)). intros l.
+  set (f := fun (a : hub * list Z) j => (fst (job_run fl j (fst a)), snd a ++ job_emits fl j (fst a))).
+  assert (G : forall (a a' : hub * list Z), hsim (fst a) (fst a') -> snd a = snd a' ->
+              hsim (fst (fold_left f l a)) (fst (fold_left f l a')) /\ snd (fold_left f l a) = snd (fold_left f l a')).
+  { induction l as [|j l IHl]; intros a a' Ha Hs; cbn [fold_left]; [now split|]. apply IHl; unfold f; cbn [fst snd].
+    - now apply job_run_sim.
+    - now rewrite Hs, (job_emits_sim fl j _ _ Ha). }
+  destruct (G (h, []) (h', []) H eq_refl) as [G1 G2]. rewrite <- G2. now apply IH.
+Qed.
+
+Lemma stepd_sim fl o h h' : clean o -> hsim h h' ->
+  snd (stepd fl h o) = snd (stepd fl h' o) /\ hsim (fst (stepd fl h o)) (fst (stepd fl h' o)).
+Proof.
+  intros Hc H. rewrite !stepd_fst. cbn [fst snd]. destruct (step_sim fl o h h' Hc H) as [Hr H1].
+  split; [exact Hr|].
+  assert (He : op_emits fl h o (fst (step fl h o)) (snd (step fl h o))
+             = op_emits fl h' o (fst (step fl h' o)) (snd (step fl h' o))).
+  { rewrite <- Hr. destruct o as [d|jo|so|po|c]; try reflexivity.
+    - destruct d; try reflexivity. cbn [op_emits]. destruct H1 as (_ & Hj & _). now rewrite Hj.
+    - destruct jo; try reflexivity. cbn [op_emits]. now apply job_emits_sim. }
+  rewrite He. now apply drain_sim.
+Qed.
+
 Lemma run_sim fl ops : Forall clean ops -> forall h h', hsim h h' ->
   snd (run fl ops h) = snd (run fl ops h') /\ hsim (fst (run fl ops h)) (fst (run fl ops h')).
 Proof.
-  induction 1 as [|o ops Ho _ IH]; intros h h' H; cbn; [now split|].
-  destruct (step_sim fl o h h' Ho H) as [Hr H1].
-  destruct (step fl h o) as [h1 r], (step fl h' o) as [h1' r']. cbn in *. subst r'.
+  induction 1 as [|o ops Ho _ IH]; intros h h' H; cbn [run]; [now split|].
+  destruct (stepd_sim fl o h h' Ho H) as [Hr H1].
+  destruct (stepd fl h o) as [h1 r], (stepd fl h' o) as [h1' r']. cbn [fst snd] in *. subst r'.
   destruct (IH h1 h1' H1) as [Hrs H2].
-  destruct (run fl ops h1) as [h2 rs], (run fl ops h1') as [h2' rs']. cbn in *. subst rs'. now split.
+  destruct (run fl ops h1) as [h2 rs], (run fl ops h1') as [h2' rs']. cbn [fst snd] in *. subst rs'. now split.
 Qed.
 
 Lemma run_app fl ops1 ops2 h :
   run fl (ops1 ++ ops2) h =
   (fst (run fl ops2 (fst (run fl ops1 h))), snd (run fl ops1 h) ++ snd (run fl ops2 (fst (run fl ops1 h)))).
 Proof.
-  revert h. induction ops1 as [|o ops1 IH]; intros h; cbn; [now destruct (run fl ops2 h)|].
-  destruct (step fl h o) as [h1 r]. rewrite IH.
-  destruct (run fl ops1 h1) as [h2 rs]. cbn. reflexivity.
+  revert h. induction ops1 as [|o ops1 IH]; intros h; cbn [run app fst snd]; [now destruct (run fl ops2 h)|].
+  destruct (stepd fl h o) as [h1 r]. rewrite IH.
+  destruct (run fl ops1 h1) as [h2 rs]. cbn [fst snd app]. reflexivity.
 Qed.
 
 Lemma norm_sim fl h : hub_synced fl h -> hsim h (norm h).
@@ -833,9 +916,12 @@ Proof.
   apply istep_frame; reflexivity.
 Qed.
 
+Lemma dm_pubns_istep n pub s : istep s (fst (dm_pubns n pub s)).
+Proof. unfold dm_pubns. destruct (assoc n (m_reg s)); [apply istep_frame; reflexivity | apply istep_refl]. Qed.
+
 Lemma dm_step_istep fl o s : istep s (fst (dm_step fl o s)).
 Proof.
-  destruct o as [n pub|n|n m|n pub|n start fsid fin es]; cbn [dm_step fst].
+  destruct o as [n pub|n|n m|n pub|l|n start fsid fin es]; cbn [dm_step fst].
   - apply dm_create_istep.
   - unfold dm_delete. destruct (Z.eqb n core_name); [apply istep_refl|].
     destruct (assoc n (m_reg s)); [apply istep_frame; reflexivity | apply istep_refl].
@@ -843,7 +929,9 @@ Proof.
     destruct (assoc n (m_reg s)); [|apply istep_refl]. destruct (Z.eqb n m); [apply istep_refl|].
     destruct (assoc m (m_reg s)); [apply istep_refl|]. cbn.
     eapply istep_trans; [|apply assert_uri_istep]. apply istep_frame; reflexivity.
-  - unfold dm_pubns. destruct (assoc n (m_reg s)); [apply istep_frame; reflexivity | apply istep_refl].
+  - apply dm_pubns_istep.
+  - destruct (forallb _ l); [|apply istep_refl]. cbn [fst].
+    apply (fold_istep (fun (p : Z * list Z) s => fst (dm_pubns (fst p) (snd p) s))). intros; apply dm_pubns_istep.
   - unfold dm_post. destruct (assoc n (m_reg s)) as [r|]; [|apply istep_refl].
     destruct (negb (Z.eqb (r_kind r) 0)); [apply istep_refl|].
     set (chk := if start then _ else _).
@@ -931,9 +1019,25 @@ Proof.
     + eapply Hinj; eauto.
 Qed.
 
+Lemma dm_pubns_rstep n pub s : rstep s (fst (dm_pubns n pub s)).
+Proof.
+  unfold dm_pubns. destruct (assoc n (m_reg s)) as [r|] eqn:En; [|apply rstep_refl]. cbn [fst].
+  split; [|split; [apply incl_refl | cbn; lia]].
+  intros (Hr & Hd & Hs & Hinj). pose proof (assoc_in _ _ _ En) as Hnr. unfold regP. cbn. repeat split.
+  + destruct (in_set_assoc _ _ _ _ _ H) as [[= -> ->]|Hin]; [cbn; now apply (Hr _ _ Hnr) | now apply (Hr _ _ Hin)].
+  + destruct (in_set_assoc _ _ _ _ _ H) as [[= -> ->]|Hin]; [cbn; now apply (Hr _ _ Hnr) | now apply (Hr _ _ Hin)].
+  + exact Hd.
+  + now apply ssorted_set.
+  + intros n1 r1 n2 r2 H1 H2 Heq.
+    destruct (in_set_assoc _ _ _ _ _ H1) as [[= -> ->]|Hin1], (in_set_assoc _ _ _ _ _ H2) as [[= -> ->]|Hin2]; auto.
+    * cbn in Heq. symmetry. eapply Hinj; eauto.
+    * cbn in Heq. eapply Hinj; eauto.
+    * eapply Hinj; eauto.
+Qed.
+
 Lemma dm_step_rstep fl o s : rstep s (fst (dm_step fl o s)).
 Proof.
-  destruct o as [n pub|n|n m|n pub|n start fsid fin es]; cbn [dm_step fst].
+  destruct o as [n pub|n|n m|n pub|l|n start fsid fin es]; cbn [dm_step fst].
   - apply dm_create_rstep.
   - unfold dm_delete. destruct (Z.eqb n core_name); [apply rstep_refl|].
     destruct (assoc n (m_reg s)) as [r|] eqn:En; [|apply rstep_refl]. cbn [fst].
@@ -963,18 +1067,9 @@ Proof.
       * pose proof (Hinj _ _ _ _ Hnr (in_adel _ _ _ _ Hin2) Heq). pose proof (ssorted_adel_neq _ _ _ _ Hs Hin2). congruence.
       * pose proof (Hinj _ _ _ _ (in_adel _ _ _ _ Hin1) Hnr Heq). pose proof (ssorted_adel_neq _ _ _ _ Hs Hin1). congruence.
       * eapply Hinj; eauto; eapply in_adel; eauto.
-  - unfold dm_pubns. destruct (assoc n (m_reg s)) as [r|] eqn:En; [|apply rstep_refl]. cbn [fst].
-    split; [|split; [apply incl_refl | cbn; lia]].
-    intros (Hr & Hd & Hs & Hinj). pose proof (assoc_in _ _ _ En) as Hnr. unfold regP. cbn. repeat split.
-    + destruct (in_set_assoc _ _ _ _ _ H) as [[= -> ->]|Hin]; [cbn; now apply (Hr _ _ Hnr) | now apply (Hr _ _ Hin)].
-    + destruct (in_set_assoc _ _ _ _ _ H) as [[= -> ->]|Hin]; [cbn; now apply (Hr _ _ Hnr) | now apply (Hr _ _ Hin)].
-    + exact Hd.
-    + now apply ssorted_set.
-    + intros n1 r1 n2 r2 H1 H2 Heq.
-      destruct (in_set_assoc _ _ _ _ _ H1) as [[= -> ->]|Hin1], (in_set_assoc _ _ _ _ _ H2) as [[= -> ->]|Hin2]; auto.
-      * cbn in Heq. symmetry. eapply Hinj; eauto.
-      * cbn in Heq. eapply Hinj; eauto.
-      * eapply Hinj; eauto.
+  - apply dm_pubns_rstep.
+  - destruct (forallb _ l); [|apply rstep_refl]. cbn [fst].
+    apply (fold_rstep (fun (p : Z * list Z) s => fst (dm_pubns (fst p) (snd p) s))). intros; apply dm_pubns_rstep.
   - unfold dm_post. destruct (assoc n (m_reg s)) as [r|]; [|apply rstep_refl].
     destruct (negb (Z.eqb (r_kind r) 0)); [apply rstep_refl|].
     set (chk := if start then _ else _).
@@ -1046,12 +1141,21 @@ Proof.
   - cbn. apply safe_by; [exact H | apply dm_reopen_sync | apply dm_reopen_istep | eapply dm_reopen_rstep; exact Hs].
 Qed.
 
+Lemma stepd_safe fl o h : dm_safe fl (h_dm h) ->
+  dm_safe fl (h_dm (fst (stepd fl h o))) /\ dm_le (h_dm h) (h_dm (fst (stepd fl h o))).
+Proof.
+  intros H. rewrite stepd_fst. cbn [fst]. destruct (step_safe fl o h H) as [H1 L1].
+  apply (drain_pres (fun x => dm_safe fl (h_dm x) /\ dm_le (h_dm h) (h_dm x))); [|now split].
+  intros j x [Hx Lx]. destruct (step_safe fl (HJob (JRun j)) x Hx) as [Hy Ly]. cbn [step job_step] in Hy, Ly.
+  split; [exact Hy | eapply dm_le_trans; eauto].
+Qed.
+
 Lemma run_safe fl ops : forall h, dm_safe fl (h_dm h) ->
   dm_safe fl (h_dm (fst (run fl ops h))) /\ dm_le (h_dm h) (h_dm (fst (run fl ops h))).
 Proof.
-  induction ops as [|o ops IH]; intros h H; cbn; [split; [exact H | apply dm_le_refl]|].
-  destruct (step_safe fl o h H) as [H1 L1]. destruct (step fl h o) as [h1 r]. cbn in *.
-  destruct (IH h1 H1) as [H2 L2]. destruct (run fl ops h1) as [h2 rs]. cbn in *.
+  induction ops as [|o ops IH]; intros h H; cbn [run]; [split; [exact H | apply dm_le_refl]|].
+  destruct (stepd_safe fl o h H) as [H1 L1]. destruct (stepd fl h o) as [h1 r]. cbn [fst] in *.
+  destruct (IH h1 H1) as [H2 L2]. destruct (run fl ops h1) as [h2 rs]. cbn [fst] in *.
   split; [exact H2 | eapply dm_le_trans; eauto].
 Qed.
 
